@@ -283,8 +283,7 @@ def run(tier):
     rnd = random.Random(common.seed() + 14)
     verdict = common.Verdict(PID)
     d = common.builddir('c14', clean=True)
-    for f in ('DslValidation.tla', 'DslTrace.tla'):
-        shutil.copy(os.path.join(common.SPEC, 'dsl', f), d)
+    common.put_spec(d, *[os.path.join('dsl', f_) for f_ in ('DslValidation.tla', 'DslTrace.tla')])
     nodes = {b: len(nodes_of(yaml.safe_load(t))) for b, (k, t) in BASES.items()}
     consts = ('CONSTANTS\n Bases = {%s}\n NodesOf <- MC_NodesOf\n Kinds = {%s}\n'
               % (', '.join('"%s"' % b for b in BASES), ', '.join('"%s"' % k for k in KINDS)))
